@@ -46,6 +46,8 @@ impl MultiRecordLog {
         let mut in_mem_queues = crate::mem::MemQueues::default();
         debug!("loading wal");
         loop {
+            #[cfg(mrecordlog_verif)]
+            crate::verif_hooks::tick();
             let file_number = record_reader.read().current_file().clone();
             let record = match record_reader.read_record::<MultiPlexedRecord>() {
                 Ok(record) => record,
